@@ -132,6 +132,18 @@ func Snapshot(root string) []Entry {
 			case syscall.S_IFSOCK:
 				e.Kind = KSock
 			}
+			if e.Kind == KFile || e.Kind == KDir {
+				buf := make([]byte, 4096)
+				if n, err := unix.Llistxattr(p, buf); err == nil && n > 0 {
+					for _, k := range splitNul(buf[:n]) {
+						val := make([]byte, 4096)
+						if vn, err := unix.Lgetxattr(p, k, val); err == nil {
+							e.XKeys = append(e.XKeys, k)
+							e.XVals = append(e.XVals, val[:vn])
+						}
+					}
+				}
+			}
 			out = append(out, e)
 			if e.Kind == KDir {
 				walk(p, r)
@@ -155,3 +167,17 @@ func Native() bool             { return true }
 
 // SnapshotAll lists every node below the common base of all roots.
 func SnapshotAll() []Entry { return Snapshot(base) }
+
+func splitNul(b []byte) []string {
+	var out []string
+	start := 0
+	for i, c := range b {
+		if c == 0 {
+			if i > start {
+				out = append(out, string(b[start:i]))
+			}
+			start = i + 1
+		}
+	}
+	return out
+}
